@@ -84,7 +84,7 @@ CLAIMED = {
         design="4/C09"),
     "C17": dict(
         text="Coq theorems over executable models of declast.tokenize / Parser.decl_statement (Model/Decl.v) and "
-             "generate.VerifyAttrs (Model/Attrs.v): for every text and scope the parser never ends in an internal exception, "
+             "generate.VerifyAttrs (Model/Attrs.v): for every text and scope the parser terminates (fuel adequacy proved) and never ends in an internal exception, "
              "an accepted statement has consumed the whole text, for every declaration and attribute list validation never ends "
              "in an internal exception, illegal attribute names are rejected and whatever is accepted satisfies every documented "
              "rule (intent/deref/owner/rank/dimension/value/assumedtype/charlen/template/implied). Table theorems over regenerated "
@@ -92,8 +92,7 @@ CLAIMED = {
              "model's. Tie: extracted model vs declast.check_decl (full AST, 5 scopes) and vs VerifyAttrs (classification). "
              "Search: shroud.main on the fully enumerated attribute space and every single-point YAML mutation.",
         note="Trusted: Coq kernel, extraction (ExtrOcamlBasic only), OCaml driver, Python harness and its outcome classifier "
-             "(tools/runmain.py), python-ast scan. Not proved: fuel adequacy of the parser model (termination; checked by the "
-             "correspondence only). YAML structure handling (ast.clean_dictionary ...) is searched, not modelled; wrong-typed "
+             "(tools/runmain.py), python-ast scan. YAML structure handling (ast.clean_dictionary ...) is searched, not modelled; wrong-typed "
              "top-level YAML values are known findings.",
         technique="Coq proof over hand model + extracted-model correspondence + regenerated-table theorems",
         design="4/C17"),
